@@ -83,13 +83,20 @@ Theorem C19_bias_gelu_identity : forall F (o : fops F) (erf : F -> F) (half sqrt
 Proof. exact bias_gelu_identity. Qed.
 Print Assumptions C19_bias_gelu_identity.
 
-(* FINDING: `check` (bias has rank 1) accepts operands the fused operator rejects *)
-Theorem C19_bias_gelu_check_insufficient_refuted : forall F (o : fops F) (erf : F -> F) (half sqrt2 : F),
-  bias_gelu_check ApproxAbsent (Some 1%nat) = true /\
-  exists row bias : list F,
+(* the side condition of BiasGeluFusion.check (bias 1-D, input's last dimension = its length) is sufficient *)
+Theorem C19_bias_gelu_check_sufficient : forall F (o : fops F) (erf : F -> F) (half sqrt2 : F) a (row bias : list F) (lead : list Z),
+  bias_gelu_check a (Some [Z.of_nat (length bias)]) (Some (lead ++ [Z.of_nat (length row)])) = true ->
+  bias_gelu_pattern F o erf half sqrt2 row bias = bias_gelu_fused F o erf half sqrt2 row bias.
+Proof. exact bias_gelu_check_sufficient. Qed.
+Print Assumptions C19_bias_gelu_check_sufficient.
+
+(* FINDING (fixed in /repo): the check before the fix (bias has rank 1) accepted operands the fused operator rejects *)
+Theorem C19_bias_gelu_check_old_insufficient_refuted : forall F (o : fops F) (erf : F -> F) (half sqrt2 : F),
+  bias_gelu_check_old ApproxAbsent (Some [2%Z]) = true /\
+  exists row bias : list F, length bias = 2 /\
     bias_gelu_pattern F o erf half sqrt2 row bias <> None /\ bias_gelu_fused F o erf half sqrt2 row bias = None.
-Proof. exact bias_gelu_check_insufficient_refuted. Qed.
-Print Assumptions C19_bias_gelu_check_insufficient_refuted.
+Proof. exact bias_gelu_check_old_insufficient_refuted. Qed.
+Print Assumptions C19_bias_gelu_check_old_insufficient_refuted.
 
 (* ---- FusedMatMul ---------------------------------------------------------------------------------------- *)
 Theorem C19_fused_matmul_div : forall F (o : fops F), is_field o -> forall (x y : mat F) c,
@@ -108,23 +115,23 @@ Theorem C19_fused_matmul_transpose : forall F (o : fops F) alpha tA tB (x y : ma
 Proof. exact fused_matmul_transpose. Qed.
 Print Assumptions C19_fused_matmul_transpose.
 
-(* Transpose of the product: the rewrite in the code is right when transA = transB (always for a plain MatMul) ... *)
-Theorem C19_matmul_transpose_code_sound : forall F (o : fops F), is_field o -> forall alpha t (x y : mat F),
-  omeq F (mmt_pattern F o alpha t t x y) (mmt_rewrite_code F o alpha t t x y).
-Proof. exact matmul_transpose_code_sound. Qed.
-Print Assumptions C19_matmul_transpose_code_sound.
+(* Transpose of the product: (op_a(x) op_b(y))^T = op_b(y)^T op_a(x)^T -- the flags swap sides with the operands (the code since the fix) *)
+Theorem C19_matmul_transpose_sound : forall F (o : fops F), is_field o -> forall alpha tA tB (x y : mat F),
+  omeq F (mmt_pattern F o alpha tA tB x y) (mmt_rewrite_code F o alpha tA tB x y).
+Proof. exact matmul_transpose_sound. Qed.
+Print Assumptions C19_matmul_transpose_sound.
 
-(* ... the right rewrite in general swaps the two flags with the operands ... *)
-Theorem C19_matmul_transpose_right : forall F (o : fops F), is_field o -> forall alpha tA tB (x y : mat F),
-  omeq F (mmt_pattern F o alpha tA tB x y) (mmt_rewrite_right F o alpha tA tB x y).
-Proof. exact matmul_transpose_right. Qed.
-Print Assumptions C19_matmul_transpose_right.
+(* FINDING (fixed in /repo): the rewrite before the fix negated the old flags in place; right only for transA = transB ... *)
+Theorem C19_matmul_transpose_old_sound_equal_flags : forall F (o : fops F), is_field o -> forall alpha t (x y : mat F),
+  omeq F (mmt_pattern F o alpha t t x y) (mmt_rewrite_old F o alpha t t x y).
+Proof. exact matmul_transpose_old_sound_equal_flags. Qed.
+Print Assumptions C19_matmul_transpose_old_sound_equal_flags.
 
-(* ... FINDING: and the code's rewrite is wrong for transA <> transB (witness replayed on the real rule + onnxruntime) *)
-Theorem C19_fused_matmul_transpose_output_refuted : exists (alpha : Z) (tA tB : bool) (x y : mat Z),
-  ~ omeq Z (mmt_pattern Z z_ops alpha tA tB x y) (mmt_rewrite_code Z z_ops alpha tA tB x y).
-Proof. exact matmul_transpose_code_refuted. Qed.
-Print Assumptions C19_fused_matmul_transpose_output_refuted.
+(* ... and wrong for transA <> transB (witness replayed on the real rule + onnxruntime on every run) *)
+Theorem C19_fused_matmul_transpose_output_old_refuted : exists (alpha : Z) (tA tB : bool) (x y : mat Z),
+  ~ omeq Z (mmt_pattern Z z_ops alpha tA tB x y) (mmt_rewrite_old Z z_ops alpha tA tB x y).
+Proof. exact matmul_transpose_old_refuted. Qed.
+Print Assumptions C19_fused_matmul_transpose_output_old_refuted.
 
 (* N-d operands: Transpose composed with the (transBatch, trans) transposition, for every rank >= 2 *)
 Theorem C19_transpose_compose : forall V (p q : nat -> nat) (T T' T'' : (nat -> nat) -> V),
@@ -144,11 +151,30 @@ Theorem C19_fused_matmul_last2_transpose : forall t N, 2 <= N ->
 Proof. exact fused_matmul_last2_transpose. Qed.
 Print Assumptions C19_fused_matmul_last2_transpose.
 
-(* FINDING: the batch rules accept rank 2, where ORT's FusedMatMul rejects transBatch *)
-Theorem C19_batch_rule_rank2_refuted : exists perm, length perm = 2 /\ batch_check FlipBatch false perm = true
+(* the batch rules fire only on rank >= 3 (layout constraint of transBatchA/B) *)
+Theorem C19_batch_check_rank3 : forall r tb perm, batch_check r tb perm = true -> 3 <= length perm.
+Proof. exact batch_check_rank3. Qed.
+Print Assumptions C19_batch_check_rank3.
+
+(* FINDING (fixed in /repo): before the fix they accepted the identity perm on rank 2 *)
+Theorem C19_batch_rule_rank2_old_refuted : exists perm, length perm = 2 /\ batch_check_old FlipBatch false perm = true
   /\ fst (batch_rewrite FlipBatch false false) = true.
-Proof. exact batch_rule_rank2_refuted. Qed.
-Print Assumptions C19_batch_rule_rank2_refuted.
+Proof. exact batch_rule_rank2_old_refuted. Qed.
+Print Assumptions C19_batch_rule_rank2_old_refuted.
+
+(* Transpose WITHOUT a perm attribute reverses all axes: a swap of the last two for rank 2 and for no other rank *)
+Theorem C19_default_perm_is_swap_iff_rank2 : forall N, 2 <= N -> (default_perm N = swap_last2 N <-> N = 2).
+Proof. exact default_perm_is_swap_iff_rank2. Qed.
+Print Assumptions C19_default_perm_is_swap_iff_rank2.
+
+(* whenever _TransposeMatMulBase.check accepts, the absorbed Transpose swaps the last two axes of an operand of rank r >= 2
+   (perm given or absent), no operand is 1-D and transBatch is not set: the hypotheses of C19_fused_matmul_last2_transpose *)
+Theorem C19_simple_check_sound : forall perm r other ftb,
+  simple_check perm (Some r) other ftb = true ->
+  (match perm with Some ((_ :: _) as p) => length p = r | _ => True end) ->
+  2 <= r /\ transpose_perm perm r = swap_last2 r /\ r <> 1 /\ other <> Some 1 /\ ftb <> Some true.
+Proof. exact simple_check_sound. Qed.
+Print Assumptions C19_simple_check_sound.
 
 (* ---- rotary embedding ----------------------------------------------------------------------------------- *)
 Theorem C19_rotary_half_rotation : forall F (o : fops F), is_field o -> forall (x1 x2 c s : list F) e2,
